@@ -84,8 +84,18 @@ def construct_script(pre, old_ids=()):
     the operation will need (register 'o<slot>_<stamp>'). Returns lines."""
     slots = pre['slots']; N = len(slots)
     L = []
-    for i, s in enumerate(slots):
-        L.append('new s%d %d' % (i + 1, s['data'] if s.get('data') is not None else 0))
+    if pre.get('at'):
+        # embedded pre-state: the modelled slots sit at the given positions of a longer arena; the other positions are
+        # filled with detached live nodes that no call touches
+        where = {p: k for k, p in enumerate(pre['at'])}
+        for p in range(pre.get('vlen', max(pre['at']) + 1)):
+            if p in where:
+                s = slots[where[p]]
+                L.append('new s%d %d' % (where[p] + 1, s['data'] if s.get('data') is not None else 0))
+            else: L.append('new f 0')
+    else:
+        for i, s in enumerate(slots):
+            L.append('new s%d %d' % (i + 1, s['data'] if s.get('data') is not None else 0))
     for i, s in enumerate(slots):
         g = gen_of(s['stamp']); d = s['data'] if s.get('data') is not None else 0
         cur = 0
@@ -120,8 +130,29 @@ def construct_script(pre, old_ids=()):
     return L
 
 
+def project(a, at):
+    """the modelled slots of a dump of an embedded arena, with positions translated back to slot numbers 1..N"""
+    back = {p + 1: k + 1 for k, p in enumerate(at)}
+    def lk(v):
+        if v is None: return None
+        return [back.get(v[0], -v[0]), v[1]]
+    def fr(v):
+        if v is None: return None
+        return back[v + 1] - 1 if (v + 1) in back else -1 - v
+    out = {'slots': [], 'first_free': fr(a['first_free']), 'last_free': fr(a['last_free'])}
+    for p in at:
+        if p >= len(a['slots']): return {'slots': [], 'first_free': None, 'last_free': None}
+        s = dict(a['slots'][p])
+        for Lk in LINKS: s[Lk] = lk(s[Lk])
+        if s.get('next_free') is not None: s['next_free'] = fr(s['next_free'])
+        out['slots'].append(s)
+    return out
+
+
 def same_state(a, b):
     """compare two arena dicts (payload of removed slots ignored)"""
+    if b.get('at') and len(a['slots']) != len(b['slots']): a = project(a, b['at'])
+    elif a.get('at') and len(a['slots']) != len(b['slots']): b = project(b, a['at'])
     if len(a['slots']) != len(b['slots']): return False
     if a['first_free'] != b['first_free'] or a['last_free'] != b['last_free']: return False
     for x, y in zip(a['slots'], b['slots']):
@@ -217,7 +248,7 @@ def ref_sequence(pre, kind, x):
 
 
 def _fmt_id(pre, n):
-    return 'NodeId{index1:%d,stamp:NodeStamp(%d)}' % (n, pre['slots'][n - 1]['stamp'])
+    return 'NodeId{index1:%d,stamp:NodeStamp(%d)}' % (pre['at'][n - 1] + 1 if pre.get('at') else n, pre['slots'][n - 1]['stamp'])
 
 
 def replay_iter(viol, profile):
